@@ -63,7 +63,7 @@ macro "kw_simp" : tactic =>
       srcEqUp_opTok, srcEq_opTok, equalsStr_opTok, equalsStr_grp, srcEqUp_nameTok, srcEq_nameTok, equalsStr_nameTok, srcEqUp_grp, srcEq_grp,
       nameTok_has_name, nameTok_has_paren, grp_paren,
       List.isEmpty_cons, List.isEmpty_nil, Bool.and_eq_true, Bool.or_eq_true, false_and, true_and, and_true, and_false, or_false, false_or,
-      or_true, true_or, Bool.false_eq_true, Bool.true_and, Bool.false_and, Bool.and_true, Bool.and_false, Bool.not_true, Bool.not_false,
+      or_true, true_or, not_false_eq_true, not_true_eq_false, Bool.false_eq_true, Bool.true_and, Bool.false_and, Bool.and_true, Bool.and_false, Bool.not_true, Bool.not_false,
       if_false, if_true, List.drop_succ_cons, List.drop_zero, List.cons_append, List.nil_append, List.append_assoc, List.length_cons,
       moveStr, moveStrUp, moveThreeUp, moveTwoUp, matchKw, popSrc, src_opTok, src_srcTok, src_litTok, children_grp, popSplit])
 macro "kw_simp" "at" h:ident : tactic =>
@@ -72,7 +72,7 @@ macro "kw_simp" "at" h:ident : tactic =>
       srcEqUp_opTok, srcEq_opTok, equalsStr_opTok, equalsStr_grp, srcEqUp_nameTok, srcEq_nameTok, equalsStr_nameTok, srcEqUp_grp, srcEq_grp,
       nameTok_has_name, nameTok_has_paren, grp_paren,
       List.isEmpty_cons, List.isEmpty_nil, Bool.and_eq_true, Bool.or_eq_true, false_and, true_and, and_true, and_false, or_false, false_or,
-      or_true, true_or, Bool.false_eq_true, Bool.true_and, Bool.false_and, Bool.and_true, Bool.and_false, Bool.not_true, Bool.not_false,
+      or_true, true_or, not_false_eq_true, not_true_eq_false, Bool.false_eq_true, Bool.true_and, Bool.false_and, Bool.and_true, Bool.and_false, Bool.not_true, Bool.not_false,
       if_false, if_true, List.drop_succ_cons, List.drop_zero, List.cons_append, List.nil_append, List.append_assoc, List.length_cons,
       moveStr, moveStrUp, moveThreeUp, moveTwoUp, matchKw, popSrc, src_opTok, src_srcTok, src_litTok, children_grp, popSplit] at $h:ident)
 
